@@ -500,6 +500,15 @@ impl JoinPlanner {
             return ir;
         }
 
+        // A Union combines independently built clauses (one per rule of the head):
+        // each branch has its own join graph and its own projection, so plan every
+        // branch on its own instead of merging all scans into a single join.
+        if let IRNode::Union { inputs } = ir {
+            return IRNode::Union {
+                inputs: inputs.into_iter().map(|i| self.plan_joins(i)).collect(),
+            };
+        }
+
         // Only optimize if there are joins
         if !Self::has_joins(&ir) {
             return ir;
